@@ -303,6 +303,8 @@ class C02Clauses(IdentityTable):
             return None
         if name not in ALGEBRA and name not in ("roundtrip", "load", "convert", "parse"):
             return None
+        if name in ("u_root", "q_root", "p_root", "d_root") and op.get("n") == 0:
+            return None      # the property speaks of roots of degree n != 0 only
         if exc is not None:
             # the model says this expression denotes a value: the library must not refuse it
             if name in ("u_root", "q_root", "p_root", "d_root", "u_pow", "u_mul", "u_div", "p_mul_u",
@@ -367,6 +369,41 @@ TABLE["C02"] = [C02Clauses]
 # ======================================================================
 # C15 — pickle / copy / JSON round trips preserve identity, names, magnitude type
 # ======================================================================
+def canon_named(nf):
+    """The one deliberate text mapping of the library: a prefixed gram written "kg" reads back as
+    the named kilogram (1 kilogram == 1000 gram, declared in si.py).  Both spellings get one
+    canonical form: kilogram^e -> 10^(3e) * gram^e."""
+    if nf is None:
+        return None
+    p, f = nf
+    extra = []
+    out = []
+    for t, e in f:
+        if t == "kilogram":
+            extra.append((10, 3 * e))
+            out.append(("gram", e))
+        else:
+            out.append((t, e))
+    return (M.p_norm(list(p) + extra), M.f_norm(out))
+
+
+def same_quantity(xm, xnf, ym, ynf, tol=0.0):
+    """Exact comparison of magnitude x prefix scale over identical canonical factors."""
+    a, b = canon_named(xnf), canon_named(ynf)
+    if a is None or b is None or a[1] != b[1]:
+        return False
+    try:
+        va = Fraction(xm) * Fraction(M.p_value(a[0]))
+        vb = Fraction(ym) * Fraction(M.p_value(b[0]))
+    except (TypeError, ValueError, OverflowError):
+        return True          # nan / inf magnitudes: out of scope
+    if va == vb:
+        return True
+    if not (single_base_int(a[0]) and single_base_int(b[0])):
+        tol = max(tol, 1e-9)
+    return tol > 0 and abs(float(va - vb)) <= tol * abs(float(va))
+
+
 class C15Clauses(IdentityTable):
     PROP = "C15"
 
@@ -508,7 +545,8 @@ class C15Clauses(IdentityTable):
                     same = got is not None and got[1] == mval[1] and M.p_close(got[0], mval[0])
                     if not same and got is not None:
                         # the deliberate kg case: an equal named unit is acceptable
-                        same = self.equal_size(got, mval)
+                        a, b = canon_named(got), canon_named(mval)
+                        same = a[1] == b[1] and M.p_close(a[0], b[0])
                         if same and "id" in op:
                             I.mvals[op["id"]] = got   # from here on the value *is* that named unit
                     if not same:
@@ -568,11 +606,10 @@ class C15Clauses(IdentityTable):
                             {"want": mag_desc(xm), "got": mag_desc(y.magnitude)})
                 out["C15.magnitude"] = "VIOLATED"
         else:
-            # JSON carries str(unit): an equal quantity of the same magnitude type
-            try:
-                same = (y == I.L.Quantity(xm, xu)) is True
-            except Exception as e:
-                same = False
+            # JSON carries str(unit): an equal quantity of the same magnitude type.  Judged in exact
+            # arithmetic on the model's normal forms (the library's own == would go through a float
+            # conversion for the deliberate kg spelling and fail for large or inexact magnitudes)
+            same = same_quantity(xm, I.nf_of(xu), y.magnitude, I.nf_of(y.unit))
             if same and "id" in op:
                 got = I.nf_of(y.unit)
                 if got is not None and mval is not None and got != mval:
